@@ -345,6 +345,10 @@ class C15(PropBase):
                 st.append("inl %d %d %s %s %s" % (t_, f_, hs(), rng.choice(["-", hs()]), rng.choice(["-", "0", str(U32), "17"])))
         if rng.chance(1, 10):
             st.append("nobootargs")
+        if nt and rng.chance(1, 16):
+            # deep thread (runaway recursion; the walker has no frame limit): a crashing or non-crashing thread with exactly n frames, n around
+            # the powers of two a reporting cap would pick; frame_count = len(frames), frame = position and the crashing_thread copy judge it
+            st.append("deep %d %d" % (rng.below(nt), rng.choice([0, 1, 255, 256, 257, 1023, 1024, 1025, 1025, 1100, 4096])))
         for d in st:
             dist["st_" + d.split()[0]] = dist.get("st_" + d.split()[0], 0) + 1
         return st
@@ -714,7 +718,7 @@ class C15(PropBase):
         if " ST " not in " " + ext:
             return []
         toks = ext.split(" ST ", 1)[1].split()
-        ar = {"assert": 1, "cert": 2, "stat": 6, "req": 1, "trust": 3, "lasterr": 2, "limit": 4, "pid": 1, "inl": 5, "nobootargs": 0, "valid": 2, "ver": 7}
+        ar = {"assert": 1, "cert": 2, "stat": 6, "req": 1, "trust": 3, "lasterr": 2, "limit": 4, "pid": 1, "inl": 5, "nobootargs": 0, "valid": 2, "ver": 7, "deep": 2}
         out, i = [], 1
         while i < len(toks):
             d = toks[i]
@@ -811,7 +815,10 @@ class C15(PropBase):
                 pushed.setdefault((int(a[0]), int(a[1])), []).append((dec(a[2]), None if a[3] == "-" else dec(a[3]), None if a[4] == "-" else int(a[4])))
         self.__dict__["_multi_inl"] = self.__dict__.get("_multi_inl", 0) + sum(
             1 for t in doc.get("threads") or [] for f in t.get("frames") or [] if len(f.get("inlines") or []) >= 2)
+        deep_threads = {int(a[0]) for d, a in st if d == "deep"}
         for (ti, fi), want in pushed.items():
+            if ti in deep_threads:
+                continue          # the thread's frames were truncated / repeated afterwards (directive `deep`)
             ths = doc.get("threads") or []
             if ti >= len(ths) or fi >= len(ths[ti].get("frames") or []):
                 continue
